@@ -304,8 +304,10 @@ def run(ctx: Any) -> None:
     from vlib.coqterm import cN, cbool, clist
 
     translate(ctx)
+    # two builds: the theorems about the model stand on their own; the tie (which depends on the regenerated file) is separate,
+    # so a source change that breaks a tie lemma does not hide which theorems still hold of the model
     ctx.prove(
-        ["prop/P_C21.vo", "tie/T_Unauthorized.vo", "refuted/R_C21.vo"],
+        ["prop/P_C21.vo", "refuted/R_C21.vo"],
         {
             "P_C21": [
                 "C21_rejection_is_401", "C21_reason_closed_set", "C21_header_body_agree", "C21_no_store",
@@ -313,6 +315,12 @@ def run(ctx: Any) -> None:
                 "C21_missing_only_if_all_missing", "C21_missing_general", "C21_unavailable_503", "C21_401_never_hides_outage",
                 "C21_client_parse_total_closed", "C21_client_unknown_reason_is_unauthorized", "C21_client_inverts_server_envelope",
             ],
+            "R_C21": ["C21_client_parse_total_refuted_when_only_ValueError_is_suppressed"],
+        },
+    )
+    ctx.prove(
+        ["tie/T_Unauthorized.vo"],
+        {
             "T_Unauthorized": [
                 "reasons_tie", "hint_template_tie", "proof_header_tie", "html_token_tie", "suppressed_tie", "max_detail_tie",
                 "html_prefixes_tie", "C21_source_reason_closed_set", "C21_source_client_parse_total_closed",
